@@ -9,6 +9,7 @@ import (
 	"encoding/json"
 	"fmt"
 	"os"
+	"os/exec"
 	"path/filepath"
 	"sort"
 	"strconv"
@@ -379,3 +380,52 @@ func ParallelW(n, workers int, f func(w, i int)) {
 
 // Q renders arbitrary bytes readably for keys and samples.
 func Q(s string) string { return strconv.Quote(s) }
+
+// Supervise re-executes the harness as a child process and returns in the
+// child.  In the parent it passes the child's verdict through; if the child is
+// killed by a fatal error that recover() cannot catch (concurrent map access,
+// stack overflow, out of memory) in the code under test, that is reported as a
+// violation of its own instead of an engine error.
+func Supervise(c *Ctx, rule string) {
+	if os.Getenv("VERIF_SUPERVISED") != "" || c.ReplayOnly != "" {
+		return
+	}
+	dir := os.Getenv("VERIF_SCRATCH")
+	if dir == "" {
+		dir = os.TempDir()
+	}
+	errPath := filepath.Join(dir, "supervised.stderr")
+	ef, _ := os.Create(errPath)
+	cmd := exec.Command(os.Args[0], os.Args[1:]...)
+	cmd.Env = append(os.Environ(), "VERIF_SUPERVISED=1")
+	cmd.Stdout = os.Stdout
+	cmd.Stderr = ef
+	err := cmd.Run()
+	ef.Close()
+	code := 0
+	if err != nil {
+		code = -1
+		if ee, ok := err.(*exec.ExitError); ok {
+			code = ee.ExitCode()
+		}
+	}
+	b, _ := os.ReadFile(errPath)
+	t := string(b)
+	k := strings.Index(t, "fatal error:")
+	if code == 0 || code == 1 {
+		os.Exit(code)
+	}
+	if k < 0 {
+		os.Stderr.Write(b)
+		fmt.Printf("ENGINE-ERROR the harness process ended with status %d\n", code)
+		os.Exit(2)
+	}
+	t = t[k:]
+	if len(t) > 1500 {
+		t = t[:1500]
+	}
+	first := strings.SplitN(t, "\n", 2)[0]
+	c.Report("crash "+first, "the code under test killed the process with a fatal error that cannot be recovered:\n"+t, map[string]string{"fatal": first})
+	c.CapHit("the run was aborted by a fatal error in the code under test")
+	c.Finish(rule)
+}
